@@ -306,8 +306,9 @@ def generate(ctx, name, consts, timeout=900, specfile="DnsWireGen.tla", idfn=Non
     return vecs
 
 
-MAIN_FAMS = ["types", "multi", "hdr", "names", "optend", "combo", "api"]
+MAIN_FAMS = ["types", "multi", "hdr", "names", "optend", "combo", "api", "sfx"]
 ALL_MUTS = ["trunc", "len", "rdlen", "ptr", "subst"]
+ALL_FLAGS = tuple(range(64))      # every combination of the six ARES_DNS_PARSE_*_RAW bits
 
 
 def gen_consts(tier, seed, fams=None, muts=None, flags=None, stride=None, combo=None):
@@ -322,8 +323,16 @@ def gen_consts(tier, seed, fams=None, muts=None, flags=None, stride=None, combo=
         stride = 11 if quick else 1
     if combo is None:
         combo = 150 if quick else 1000
+    # the parse-flag dimension (DnsWireGen!FlagsOf / FlagsSound): all 64 flag values on the unmutated vectors of
+    # the families below in the layouts XFlagLays; quick: every RR type x section, multi-RR messages, header /
+    # extended-rcode / OPT variants in the all-compressed layout; thorough: also the random multi-RR records and the
+    # name pool, in the same layout
+    xfams = ["types", "multi", "hdr", "optend"] if quick else ["types", "multi", "hdr", "optend", "names", "combo"]
     return {"Fams": tla_set(fams, True), "MutKinds": tla_set(muts, True), "ComboN": combo, "Seed": seed % 1000,
+            "SfxLen": 2 if quick else 3,
             "Stride": stride, "Phase": seed % stride, "FlagSet": tla_set(flags),
+            "XFlagSet": tla_set(ALL_FLAGS), "XFlagFams": tla_set([f for f in xfams if f in fams], True),
+            "XFlagLays": "{2}",
             "MutLays": "{3}" if quick else "{3, 5}", "AsCoded": "FALSE"}
 
 
@@ -341,13 +350,31 @@ def main_vectors(ctx):
               [x for x in ("WF", "Lenient", "Malformed") if not verdicts.get(x)]
     if missing:
         raise vlib.MachineryError("generated vector set is vacuous for: %s" % missing)
-    ctx.notes["vectors"] = {"by_mutation": kinds, "by_family": fams, "by_reference_verdict_flags0": verdicts}
+    # the parse-flag dimension must be present: vectors judged under all 64 flag values, among them messages with
+    # an interpreted-type RR (OPT and others) in each section
+    allfl = [v for v in vecs if len(v["dec"]) == len(ALL_FLAGS)]
+    sects = {s for v in allfl for s in ("an", "ns", "ar") if v["dec"][0]["k"] != "Malformed" and v["dec"][0]["rec"][s]}
+    if len(allfl) < 100 or sects != {"an", "ns", "ar"}:
+        raise vlib.MachineryError("parse-flag dimension is vacuous: %d vectors with all 64 flag values, sections %s" %
+                                  (len(allfl), sorted(sects)))
+    ctx.notes["vectors"] = {"by_mutation": kinds, "by_family": fams, "by_reference_verdict_flags0": verdicts,
+                            "with_all_64_parse_flag_values": len(allfl)}
     return vecs
 
 
 def big_vectors(ctx):
-    return generate(ctx, "gen_big", gen_consts(ctx.tier, ctx.seed, fams=["big"], muts=[], flags=(0,), stride=1, combo=1),
+    vecs = generate(ctx, "gen_big", gen_consts(ctx.tier, ctx.seed, fams=["big"], muts=[], flags=(0,), stride=1, combo=1),
                     timeout=900)
+    # vacuity: the message-size boundary must be present with the reference's verdicts on both sides of it
+    at = {}
+    for v in vecs:
+        at.setdefault(len(v["nb"]), set()).add(v["dec"][0]["k"])
+    want = {65534: {"WF"}, 65535: {"WF"}, 65536: {"Malformed"}}
+    if any(at.get(n) != k for n, k in want.items()):
+        raise vlib.MachineryError("big family: message-size boundary vectors missing or misjudged: %s" %
+                                  {n: sorted(at.get(n, [])) for n in want})
+    ctx.notes["big_vector_lengths"] = sorted(at)
+    return vecs
 
 
 def base_records(vecs):
